@@ -46,10 +46,10 @@ def main():
         res["existing_test_failures"] = fails
         # demonstration
         cmd = meta.get("demo_cmd", "")
-        cmd = re.sub(r"cd /tmp/mut2?/C\d+\s*&&\s*", "", cmd)
+        cmd = re.sub(r"cd /tmp/mut\d?/C\d+\s*&&\s*", "", cmd)
         cmd = re.sub(r"git apply out/\d+/patch\.diff\s*&&\s*", "", cmd)
         cmd = re.sub(r"export GOFLAGS=\S+ GOPROXY=\S+ GOSUMDB=\S+ GOTOOLCHAIN=\S+\s*&&\s*", "", cmd)
-        cmd = cmd.replace(" out/", f" {ROOT}/{cid}/out/").replace(f"/tmp/mut2/{cid}/out/", f"{ROOT}/{cid}/out/").rstrip("; ")
+        cmd = cmd.replace(" out/", f" {ROOT}/{cid}/out/").replace(f"/tmp/mut3/{cid}/out/", f"{ROOT}/{cid}/out/").rstrip("; ")
         res["demo_cmd"] = cmd
         rc1, out1 = sh(cmd + " 2>&1", wt, timeout=600)
         res["demo_with_patch_exit"] = rc1
